@@ -21,6 +21,8 @@ Section Disj.
   Variable cadv : C -> Z -> res (option dmatch * C).
   Variable CInv CFin : C -> (Z -> bool) -> Z -> Prop.
   Hypothesis Hct : contract cnext cadv CInv CFin.
+  Variable CNew : C -> (Z -> bool) -> Prop.
+  Hypothesis Hnew : new_exact cnext CInv CFin CNew.
   Variable N : Z.
   Variable Ss0 : list (Z -> bool).
   Variable dmin : Z.
@@ -410,7 +412,7 @@ Section Disj.
 
   Definition dsl_fresh (st : dsl_st C) : Prop :=
     ds_init st = false /\ ds_min st = dmin /\ length (ds_s st) = length Ss0 /\
-    forall i c S, nth_error (ds_s st) i = Some c -> nth_error Ss0 i = Some S -> bounded N S /\ CInv c S 0.
+    forall i c S, nth_error (ds_s st) i = Some c -> nth_error Ss0 i = Some S -> bounded N S /\ CNew c S.
 
   Definition dsl_inv (st : dsl_st C) (lo : Z) : Prop := dsl_ready st lo \/ (dsl_fresh st /\ lo = 0).
 
@@ -420,7 +422,7 @@ Section Disj.
     intros st lo [HR|[[Hi [Hmin [Hlen Hall]]] ->]].
     - exists st. unfold dsl_initialise. destruct HR as [Hi HR]. rewrite Hi. split; [reflexivity|split; assumption].
     - unfold dsl_initialise. rewrite Hi.
-      destruct (next_all_spec C cnext cadv CInv CFin Hct N (ds_s st) Ss0 (-1) Hlen) as [currs [cs' [E [H3 [Hgap [Hnone [Hfrom Hfin]]]]]]].
+      destruct (next_all_new C cnext CInv CFin CNew Hnew N (ds_s st) Ss0 Hlen) as [currs [cs' [E [H3 [Hgap [Hnone [Hfrom Hfin]]]]]]].
       { intros i c S Hc HS. exact (Hall i c S Hc HS). }
       rewrite E. simpl. eexists. split; [reflexivity|].
       destruct (all3_length _ _ _ _ H3) as [Hl1 Hl2].
